@@ -1029,6 +1029,8 @@ fn directed_probes(ctx: &mut Ctx) {
     let apng = serialize(&[ihdr(3, 2, 8, 0, 0), actl(2, 0), fc(0), RawChunk::new(b"IDAT", z.clone()), fc(1), fd(2), RawChunk::new(b"IEND", vec![])]);
     let actl0 = serialize(&[ihdr(3, 2, 8, 0, 0), actl(0, 0), fc(0), RawChunk::new(b"IDAT", z.clone()), RawChunk::new(b"IEND", vec![])]);
     let trns_late = serialize(&[ihdr(3, 2, 8, 0, 0), actl(2, 0), fc(0), RawChunk::new(b"IDAT", z.clone()), RawChunk::new(b"tRNS", vec![0, 1]), fc(1), fd(2), RawChunk::new(b"IEND", vec![])]);
+    // a stream whose first data chunk is an fdAT (no IDAT at all), tRNS between the frames (found by the Reader invariant proof)
+    let fdat_first = unhex("89504e470d0a1a0a0000000d4948445200000002000000010800000000d1492056000000086163544c0000000200000000f38d93700000001a6663544c0000000000000002000000010000000000000000000100010000f57c59980000000f6664415400000001789c63e0120100002b001f6653984a0000000274524e53000a964624260000001a6663544c000000020000000200000001000000000000000000010001000018ea8a710000000f6664415400000003789c6390d30000006700479b3e7dbd0000000049454e44ae426082").unwrap_or_default();
     let idat_end = apng.windows(4).position(|w| w == b"IDAT").unwrap() + 4 + z.len() + 4;
     let probes: Vec<(&str, Vec<u8>, usize, Vec<Op>, u8)> = vec![
         ("finish-then-next_frame_info", still.clone(), still.len(), vec![Op::ReadInfo, Op::Finish, Op::NextFrameInfo], 0),
@@ -1036,6 +1038,7 @@ fn directed_probes(ctx: &mut Ctx) {
         ("failed-finish-then-rows", apng.clone(), idat_end, vec![Op::ReadInfo, Op::Finish, Op::Grow(apng.len()), Op::NextRow, Op::NextRow, Op::NextRow], 0),
         ("trns-after-idat", trns_late.clone(), trns_late.len(), vec![Op::ReadInfo, Op::NextFrame(0), Op::NextFrame(0), Op::NextFrame(0)], 1),
         ("trns-after-idat-rows", trns_late.clone(), trns_late.len(), vec![Op::ReadInfo, Op::NextRow, Op::NextRow, Op::NextRow, Op::NextRow, Op::NextRow], 1),
+        ("fdat-first-trns-between-frames", fdat_first.clone(), fdat_first.len(), vec![Op::ReadInfo, Op::NextFrame(0), Op::NextFrameInfo, Op::NextFrame(0)], 1),
     ];
     for (name, file, v0, ops, flags) in probes {
         let mut c = Config::default();
